@@ -58,12 +58,49 @@ type PairSpec struct {
 	// Consumers: qualified callee names that take over the reference when the
 	// value is passed as an argument.
 	Consumers []string
+	// ErrGated: the acquire call returns (value, error); the obligation exists only where the
+	// error is nil (on the non-nil edge nothing was acquired).
+	ErrGated bool
+	// Derived: short method names whose result, when called on the value, stands for the value
+	// when it is passed to a consumer (ref.Value()).
+	Derived []string
+	// OwnedWhere: additional conditions under which the reference is known to be owned by
+	// something else (e.g. "the point iterator exists": its close hook releases the reference).
+	OwnedWhere []CondM
 }
 
 // Pairing checks one acquire site. v is the acquired value (call result or the
 // receiver of a Ref()-style call).
 func (c *Ctx) Pairing(spec PairSpec, fn *ssa.Function, acquire ssa.Instruction, v ssa.Value) {
 	al := aliasesOf(v)
+	if len(spec.Derived) > 0 {
+		der := map[string]bool{}
+		for _, d := range spec.Derived {
+			der[d] = true
+		}
+		// results of ref.Value()-style calls on an alias are aliases for consumer purposes
+		for changed := true; changed; {
+			changed = false
+			for x := range al {
+				if x.Referrers() == nil {
+					continue
+				}
+				for _, r := range *x.Referrers() {
+					call, ok := r.(*ssa.Call)
+					if !ok {
+						continue
+					}
+					ci := infoOfCommon(call.Common())
+					if ci.Recv != nil && stripConv(ci.Recv) == x && der[ci.Short] && !al[call] {
+						for y := range aliasesOf(call) {
+							al[y] = true
+						}
+						changed = true
+					}
+				}
+			}
+		}
+	}
 	rel := map[string]bool{}
 	for _, r := range spec.Release {
 		rel[r] = true
@@ -135,6 +172,51 @@ func (c *Ctx) Pairing(spec PairSpec, fn *ssa.Function, acquire ssa.Instruction, 
 	fl := NewFlow(c.P).
 		KillAfter("balanced", Pred("acquire", func(in ssa.Instruction) bool { return in == acquire })).
 		After("balanced", discharge)
+	if spec.ErrGated {
+		// the error tested must be exactly the acquire call's error result (a variable that is
+		// reused for later calls does not count once it may hold another call's error)
+		isAcquireErr := func(x ssa.Value) bool {
+			x = stripConv(x)
+			if ex, ok := x.(*ssa.Extract); ok {
+				return ex.Tuple == ssa.Value(acquire.(*ssa.Call))
+			}
+			if ld, ok := x.(*ssa.UnOp); ok && ld.Op == token.MUL && isCell(ld.X) {
+				stores, complete := reachingStores(ld)
+				if !complete || len(stores) == 0 {
+					return false
+				}
+				for _, st := range stores {
+					ex, ok := stripConv(st.Val).(*ssa.Extract)
+					if !ok || ex.Tuple != ssa.Value(acquire.(*ssa.Call)) {
+						return false
+					}
+				}
+				return true
+			}
+			return false
+		}
+		fl.Edge("balanced", func(v ssa.Value) (bool, bool) {
+			bo, ok := v.(*ssa.BinOp)
+			if !ok || (bo.Op != token.EQL && bo.Op != token.NEQ) {
+				return false, false
+			}
+			var x ssa.Value
+			if isNilConst(bo.Y) {
+				x = bo.X
+			} else if isNilConst(bo.X) {
+				x = bo.Y
+			} else {
+				return false, false
+			}
+			if !isErrorType(x.Type()) || !isAcquireErr(x) {
+				return false, false
+			}
+			return true, bo.Op == token.EQL // balanced where err != nil: nothing was acquired
+		})
+	}
+	for _, cm := range spec.OwnedWhere {
+		fl.Edge("balanced", cm)
+	}
 	entry := emptyState()
 	entry.add("balanced")
 	res := fl.Analyze(fn, entry)
